@@ -504,7 +504,8 @@ class Gen:
                 # with the new object (known finding C05-N7, probed in ops.py) and the whole program would diverge
                 c2["frozen"] = set(c2.get("frozen", ())) | {x for x in its if x in env}
                 body = self.block(e2, depth + 1, ind + "    ", c2)
-                if r.random() < 0.3:
+                # (nothing after a `return`: mypy does not check unreachable code and mypyc can emit invalid C for it)
+                if r.random() < 0.3 and not body[-1].startswith(ind + "    return"):
                     body.append(f"{ind}    if {self.expr(BOOL, e2, 2)}:")
                     body.append(f"{ind}        {r.choice(['break', 'continue'])}")
                 L += body
@@ -525,7 +526,7 @@ class Gen:
                 self.f("try")
                 L.append(f"{ind}try:")
                 body = self.block(dict(env), depth + 1, ind + "    ", ctx)
-                if r.random() < 0.4:
+                if r.random() < 0.4 and not body[-1].startswith(ind + "    return"):
                     exc = r.choice(["ValueError", "KeyError", "E0", "IndexError", "RuntimeError"])
                     self.f("raise")
                     body.append(f"{ind}    if {self.expr(BOOL, env, 2)}:")
@@ -731,7 +732,7 @@ class Gen:
                 envm = {k: v for k, v in env.items() if k != "self"}
                 mb += self.block(envm, 1, "        ", {"ret": ret if ret != "None" else None, "fn": False, "nested": True,
                                                        "frozen": {p for p, _ in ps}})
-                if ret != "None":
+                if ret != "None" and not mb[-1].startswith("        return"):
                     mb.append(f"        return {self.expr(ret, envm)}")
                 body += mb
             # property
